@@ -845,6 +845,7 @@ class AccumulatorCall(Unit):
         st = St()
         self.x, self.init = z3.Const('x', Val), z3.Const('acc', Val)
         self.NOTSET = z3.Const('NOTSET', Val)
+        st.assume(V.is_ref(self.NOTSET))          # NOTSET = object(): a plain object, equality is identity
         self.f = UFunc('acc_f', 2, raises='Exception')
         self.kw = KwPack(z3.Const('acc_kwargs', Val))
         self.me = Rec(ex, 'self').init(st, _func=self.f, _initializer=self.init, _kwargs=self.kw)
